@@ -227,8 +227,36 @@ def inj_undefined_base(case, rng):
 def inj_misaligned(case, rng):
     c = copy.deepcopy(case)
     fi = _pick_file(c, rng)
-    variant = rng.choice(["member", "total", "nested", "object"])
-    if variant == "member":
+    variant = rng.choice(["member", "total", "nested", "object", "random", "random", "interior", "interior"])
+    if variant == "random":
+        # any field list whose natural layout differs from the packed one (interior or tail padding,
+        # wherever it sits relative to larger members)
+        sizes = {"uint8": 1, "int8": 1, "uint16": 2, "int16": 2, "uint32": 4, "int32": 4, "float32": 4, "uint64": 8, "int64": 8, "float64": 8}
+        while True:
+            fields = [{"type": rng.choice(sorted(sizes)), "count": rng.choice([1, 1, 1, 2, 3]), "name": f"r{q}"} for q in range(rng.randint(2, 6))]
+            off, bad, mx = 0, False, 1
+            for f in fields:
+                a = sizes[f["type"]]
+                mx = max(mx, a)
+                if off % a:
+                    bad = True
+                off += a * f["count"]
+            if bad or off % mx:
+                break
+    elif variant == "interior":
+        # a member misaligned although a LARGER member precedes it; total size stays a multiple
+        # of the largest alignment (only the per-member offset rule can refuse this)
+        big = rng.choice([("uint32", 4), ("uint64", 8), ("float64", 8)])
+        mid = rng.choice([("uint16", 2), ("int16", 2)] + ([("uint32", 4)] if big[1] == 8 else []))
+        fields = [{"type": big[0], "count": 1, "name": "a"}, {"type": "uint8", "count": 1, "name": "b"},
+                  {"type": mid[0], "count": 1, "name": "c"}]
+        tot = big[1] + 1 + mid[1]
+        k = 0
+        while tot % big[1]:
+            fields.append({"type": "uint8", "count": 1, "name": f"p{k}"})
+            tot += 1
+            k += 1
+    elif variant == "member":
         fields = [{"type": "uint8", "count": 1, "name": "a"}, {"type": rng.choice(["uint16", "uint32", "uint64", "float64"]), "count": 1, "name": "b"}]
     elif variant == "total":
         fields = [{"type": rng.choice(["uint32", "uint64"]), "count": 1, "name": "a"}, {"type": "uint8", "count": rng.choice([1, 2, 3]), "name": "b"}]
@@ -300,10 +328,16 @@ def inj_include_cycle(case, rng):
 
 def inj_const_range(case, rng):
     c = copy.deepcopy(case)
-    t, v = rng.choice([("uint8", "256"), ("uint8", "-1"), ("int8", "128"), ("int8", "-129"), ("uint16", "65536"),
-                       ("int16", "-32769"), ("uint32", "4294967296"), ("int32", "2147483648"), ("uint64", "18446744073709551616"),
-                       ("int64", "9223372036854775808"), ("int64", "-9223372036854775809"), ("uint8", "0x100"),
-                       ("uint32", "-0x1"), ("int8", "0x80")])
+    # one step outside the range of a random integer type, in a random spelling (decimal, hex,
+    # negative hex; also a hex spelling whose digits read as decimal would be IN range)
+    bits = rng.choice([8, 16, 32, 64])
+    signed = rng.random() < 0.5
+    t = ("int" if signed else "uint") + str(bits)
+    hi = (1 << (bits - 1)) - 1 if signed else (1 << bits) - 1
+    lo = -(1 << (bits - 1)) if signed else 0
+    above = hi + rng.choice([1, 1, 2, 0x10, hi // 3 + 1])
+    below = lo - rng.choice([1, 1, 2, 0x11, (hi // 5) + 1])
+    v = rng.choice([str(above), str(below), hex(above), "-" + hex(-below), "-0x" + format(-below, "X"), "0x" + format(above, "X")])
     fi = _pick_file(c, rng)
     node = {"k": "const", "type": t, "name": "ZRange", "value": v}
     if rng.random() < 0.5 and _files_with(c, "interface"):
